@@ -122,6 +122,10 @@ struct State {
     live_gc: [i64; 16],
     /// blocks released while quarantined, waiting for `end_run`
     bytes_quarantined: usize,
+    /// object ids whose Gc block must not be released by the call in progress (C01 / C05): if it
+    /// is released all the same, the event is recorded but the memory is left intact, so that
+    /// the collector does not trip over poison before the harness can report the violation
+    protected: SysVec<u32>,
 }
 
 static mut ST: State = State {
@@ -137,6 +141,7 @@ static mut ST: State = State {
     events: SysVec::new(),
     live_gc: [0; 16],
     bytes_quarantined: 0,
+    protected: SysVec::new(),
 };
 
 #[inline]
@@ -284,6 +289,23 @@ unsafe impl GlobalAlloc for Seam {
             if b.owner != 0 && (b.arena as usize) < 16 {
                 ST.live_gc[b.arena as usize] -= 1;
             }
+            let mut shielded = false;
+            if b.owner != 0 {
+                for k in 0..ST.protected.len {
+                    if *ST.protected.get(k) == b.owner - 1 {
+                        shielded = true;
+                        break;
+                    }
+                }
+            }
+            if shielded {
+                // a wrongful release: keep the bytes (and the memory) as they are
+                ST.bytes_quarantined += r + b.size + r;
+                if !ST.quarantine {
+                    ST.blocks.get_mut(i).free_ctx = 0xEE; // still to be given back at the next begin_run
+                }
+                return;
+            }
             std::ptr::write_bytes(p, POISON_BYTE, b.size);
             if ST.quarantine {
                 ST.bytes_quarantined += r + b.size + r;
@@ -365,7 +387,7 @@ pub fn begin_run(quarantine: bool) {
                 b2.arena = NO_ARENA;
                 *ST.blocks.get_mut(kept) = b2;
                 kept += 1;
-            } else if ST.quarantine {
+            } else if ST.quarantine || b.free_ctx == 0xEE {
                 let r = rz(b.align);
                 System.dealloc((b.user - r) as *mut u8, Layout::from_size_align_unchecked(r + b.size + r, b.align));
             }
@@ -373,6 +395,7 @@ pub fn begin_run(quarantine: bool) {
         ST.blocks.len = kept;
         ST.bytes_quarantined = 0;
         ST.quarantine = quarantine;
+        ST.protected.clear();
         ST.events.clear();
         ST.live_gc = [0; 16];
         let mut cap = 1 << 14;
@@ -384,6 +407,19 @@ pub fn begin_run(quarantine: bool) {
         ST.ctx_arena = NO_ARENA;
         ST.cur_arena = NO_ARENA;
     }
+}
+
+/// Ids whose Gc blocks the call about to be made must not release.
+pub fn set_protected(ids: impl Iterator<Item = u32>) {
+    unsafe {
+        ST.protected.clear();
+        for i in ids {
+            ST.protected.push(i);
+        }
+    }
+}
+pub fn clear_protected() {
+    unsafe { ST.protected.clear() }
 }
 
 /// Number of blocks recorded so far in this run (a position in the allocation log).
